@@ -176,6 +176,10 @@ class Ctx:
 
     def guard(self, name: str, n: int = 1):
         self.guards[name] = self.guards.get(name, 0) + int(n)
+        # guards are hit from inside every clause loop: a cheap place to keep the process below the kernel's limit on memory mappings
+        self._guard_calls = getattr(self, "_guard_calls", 0) + 1
+        if self._guard_calls % 64 == 0:
+            relieve_native_pressure()
 
     def require(self, *names: str):
         self.required_guards.update(names)
@@ -548,6 +552,24 @@ def _finish_partial(ctx, why: str) -> int:
         return 2
     ctx.notes["exploration_incomplete"] = why[:300]
     return ctx.finish()
+
+
+def relieve_native_pressure(limit: int = 30000) -> bool:
+    """Every compiled XLA executable holds several memory mappings; a long exploration that compiles one program per static
+    configuration walks into vm.max_map_count (65530 here) and the native compiler then dies with SIGSEGV / SIGABRT.  When the
+    process holds more than `limit` mappings the compiled executables are dropped (the jitted Python wrappers re-compile on demand)."""
+    try:
+        with open("/proc/self/maps", "rb") as f:
+            n = sum(1 for _ in f)
+    except OSError:
+        return False
+    if n <= limit or "jax" not in sys.modules:
+        return False
+    import gc
+
+    sys.modules["jax"].clear_caches()
+    gc.collect()
+    return True
 
 
 def product_dicts(**axes):
